@@ -35,7 +35,9 @@ plus a few timing cases on adversarial families (long runs of one character).
      characters) equals the model's `parseReal`.  Python's Unicode tables for the
      non-ASCII characters of a case (\\d, \\w, str.upper) are passed to the model as its parameter.
 """
+import os
 import re
+import tempfile
 import zlib
 import time
 
@@ -73,10 +75,14 @@ DUNDERS = ['__class__', '__dict__', '__metaclass__', '__hash__', '__init__', '__
            '__a__', '_____', '__x', 'x__', '____', '__A_B__']
 
 
+_tmpdir = None
+
+
 def setup(ctx):
-    global _x
+    global _x, _tmpdir
     import xtuml
     _x = xtuml
+    _tmpdir = str(ctx.ws.tmp('c12-files')) if ctx is not None and hasattr(ctx, 'ws') else tempfile.mkdtemp(prefix='c12-')
     xtuml.ModelLoader().input('')
 
 
@@ -535,7 +541,70 @@ def g_text0(rng, env, stream):
     return mutate(rng, base)
 
 
+ZERO_GUID = '"00000000-0000-0000-0000-000000000000"'
+
+
+def g_typed(rng):
+    """COLUMN TYPE x LEXICAL CLASS, exhaustively crossed by a small file: one declared column (every core type in every letter
+    case, unknown types) receives a value of every lexical class (number, negative number, fraction, string, TRUE / FALSE,
+    well-formed and malformed uuid, very long numeral), positionally or by name (names that the class lacks, fewer names
+    than values); and referrers / referred instances whose key is the null value of its type ('' / the zero uuid / 0)"""
+    r = rng.random()
+    if r < 0.25:
+        ty = rng.choice(['STRING', 'UNIQUE_ID', 'INTEGER', 'STRING', 'UNIQUE_ID'])
+        nulls = {'STRING': ["''", "'k'", "' '"], 'UNIQUE_ID': [ZERO_GUID, '0', '"00000000-0000-0000-0000-000000000007"', '7'],
+                 'INTEGER': ['0', '7', '-0']}[ty]
+        t1, t2 = gen_schema.gen_type(rng, ty), gen_schema.gen_type(rng, ty)
+        stmts = ['CREATE TABLE B (Id %s, N INTEGER);' % t1, 'CREATE TABLE A (B_Id %s);' % t2,
+                 'CREATE ROP REF_ID R1 FROM %s A (B_Id) TO %s B (Id);' % (rng.choice(['MC', 'M', '1C']), rng.choice(['1', '1C']))]
+        for k in range(rng.randint(1, 3)):
+            stmts.append('INSERT INTO B VALUES (%s, %d);' % (rng.choice(nulls), k))
+        for k in range(rng.randint(1, 3)):
+            stmts.append('INSERT INTO A VALUES (%s);' % rng.choice(nulls))
+        if rng.random() < 0.3:
+            rng.shuffle(stmts)
+        return ' '.join(stmts)
+    ty = g_type(rng) if rng.random() < 0.8 else rng.choice(['FOO', 'INT', 'same_as', 'inst_ref', 'TEXT'])
+    pick = rng.random()
+    if pick < 0.15:
+        val = rng.choice([ZERO_GUID, '"%032x"' % rng.getrandbits(128), '"zz"', '""', '"12345678-1234-1234-1234-1234567890ab"',
+                          '"{12345678123412341234123456789012}"', '"urn:uuid:12345678123412341234123456789012"', '"1234"'])
+    elif pick < 0.22:
+        val = rng.choice(['', '-']) + long_numeral(rng)
+    else:
+        val = ' '.join(g_value_of(rng, rng.choice(gen_schema.CORE)))
+    two = rng.random() < 0.4
+    decl = 'CREATE TABLE T (N %s%s);' % (ty, ', S STRING' if two else '')
+    vals = [val] + (["'x'"] if two else [])
+    if rng.random() < 0.15:
+        vals = vals + ['1'] if rng.random() < 0.5 else vals[:-1] or vals        # more / fewer values than columns
+    if rng.random() < 0.4:
+        names = ['N', 'S'][:len(vals)] + ['X%d' % k for k in range(max(0, len(vals) - 2))]
+        q = rng.random()
+        if q < 0.2:
+            names[rng.randrange(len(names))] = rng.choice(['Q', 'n_', 'NN'])       # a name the class does not have
+        elif q < 0.3:
+            names = names[:-1] or names + ['S']                                   # other number of names than values
+        elif q < 0.45:
+            names = [g_case(rng, w) for w in names]
+        ins = 'INSERT INTO T (%s) VALUES (%s);' % (', '.join(names), ', '.join(vals))
+    else:
+        ins = 'INSERT INTO T VALUES (%s);' % ', '.join(vals)
+    parts = [decl, ins] if rng.random() < 0.85 else [ins, decl]
+    return rng.choice([' ', '\n']).join(parts)
+
+
 def generate(ctx):
+    for case in generate0(ctx):
+        yield case
+    # extra cases AFTER the streams (which stay what they were)
+    for i in range(ctx.pick(700, 9000)):
+        rng = ctx.rng.fork('typed', i)
+        k = rng.choice([1, 1, 1, 2])
+        yield {'texts': [g_typed(rng) for _ in range(k)], 'streams': ['typed'] * k}
+
+
+def generate0(ctx):
     n = ctx.pick(11000, 150000)
     for i in range(n):
         rng = ctx.rng.fork('case', i)
@@ -785,10 +854,102 @@ def run_impl(case):
             fail('fresh-loader-raises:%s' % type(e).__name__, 'a fresh loader raised %s on texts the first loader accepted' % type(e).__name__)
     if outcome != 'builtin':
         _afterlife(x, loader, accepted, outcome, m, deep_before_build, fail, stats)
+    if zlib.crc32(dumps(texts).encode('ascii')) % 3 == 0 and 'other' not in [str(o) for o in outs]:
+        try:
+            _file_routes(x, texts, outs, stmts, accepted, outcome, m, fail, stats)
+        except OSError as e:
+            stats['file_routes_os_error'] = 1
     toks = [Sym('tokens')] + [[_real_tokens(t), Sym('same')] for t in texts]
     obs = [outs, stmts, Sym(outcome), reals, toks]
     nontrivial = (0 < len(accepted) < len(texts)) or outcome in ('parsing', 'meta')
     return {'obs': obs, 'd_fail': fails, 'nontrivial': nontrivial, 'key': dumps(texts), 'stats': stats}
+
+
+def _file_routes(x, texts, outs, stmts, accepted, outcome, m, fail, stats):
+    """THE OTHER WAYS OF FEEDING TEXT to a loader: `filename_input`, `file_input` (an open file) and `load_metamodel` (a list of
+    file names).  Each text goes into a file of its own; the expectation is what `input()` did with the same text in the main
+    run (that behaviour is compared with the Lean model): the same verdict per text, nothing else raised, a rejected file
+    leaves the content as it was, the same accumulated statements, the same build."""
+    work = tempfile.mkdtemp(prefix='f-', dir=_tmpdir)
+    try:
+        paths = []
+        for k, text in enumerate(texts):
+            pk = os.path.join(work, 't%d.sql' % k)
+            try:
+                with open(pk, 'w', newline='', encoding='utf-8') as f:
+                    f.write(text)
+                with open(pk, 'r', newline='') as f:
+                    back = f.read()
+            except (UnicodeError, ValueError):
+                back = None
+            if back != text:
+                stats['file_routes_text_not_representable'] = 1           # e.g. a lone surrogate: no file holds this text
+                return
+            paths.append(pk)
+        loader = x.ModelLoader()
+        for k, (text, pk) in enumerate(zip(texts, paths)):
+            before = _deep(loader.statements)
+            route = 'filename_input' if (k + len(texts)) % 2 == 0 else 'file_input'
+            try:
+                if route == 'filename_input':
+                    loader.filename_input(pk)
+                else:
+                    with open(pk, 'r', newline='') as f:
+                        loader.file_input(f)
+                got = 'accepted'
+            except x.ParsingException:
+                got = 'parsing'
+            except Exception as e:
+                got = 'other'
+                fail('%s-raises:%s' % (route, type(e).__name__), '%s of a file holding %r raised %s: %s' % (
+                    route, text[:300], type(e).__name__, str(e)[:200]))
+            stats['file_route_' + route] = stats.get('file_route_' + route, 0) + 1
+            if got != 'other' and got != str(outs[k]):
+                fail('file-route-differs:verdict', '%s of a file holding %r: %s, input() of the same text: %s' % (
+                    route, text[:300], got, outs[k]))
+            if got != 'accepted' and _deep(loader.statements) != before:
+                fail('rejected-file-changed-statements', '%s of a file holding %r was rejected (%s) but loader.statements changed '
+                     'from %d to %d entries' % (route, text[:300], got, len(before), len(loader.statements)))
+        fstmts = [gen_schema.stmt_dump(s) for s in loader.statements]
+        if fstmts != stmts:
+            fail('file-route-differs:statements', 'the statements accumulated through filename_input / file_input differ from '
+                 'those accumulated through input() for %r' % ([t[:200] for t in texts],))
+        # load_metamodel over the files input() accepted, in order
+        if outcome != 'builtin':
+            acc_paths = [pk for pk, o in zip(paths, outs) if str(o) == 'accepted']
+            try:
+                lm = x.load_metamodel(acc_paths if len(acc_paths) != 1 or len(texts) % 2 else acc_paths[0])
+                lout = 'ok'
+            except Exception as e:
+                lm = None
+                lout = _classify_build_exc(e, []) or 'builtin'
+                if lout == 'builtin':
+                    fail('load_metamodel-raises:%s' % type(e).__name__, 'load_metamodel of files holding %r raised %s: %s' % (
+                        [t[:200] for t in accepted], type(e).__name__, str(e)[:200]))
+            stats['file_route_load_metamodel'] = 1
+            if lout != 'builtin' and lout != outcome:
+                fail('file-route-differs:build-outcome', 'load_metamodel of the accepted files ends %s, input() + build_metamodel '
+                     'of the same texts ends %s: %r' % (lout, outcome, [t[:200] for t in accepted]))
+            elif lout == 'ok':
+                da, db = _safe_dump(m), _safe_dump(lm)
+                if gen_schema.diff(da, db) and isinstance(da, dict) and isinstance(db, dict):
+                    # load_metamodel has no id generator argument: unique ids that were DEFAULTED (an INSERT with fewer values
+                    # than attributes) come from another generator; the statements (compared above) carry all given values
+                    for dx in (da, db):
+                        for c in dx.get('classes', {}).values():
+                            for i, (_, ty) in enumerate(c['attrs']):
+                                if ty == 'UNIQUE_ID':
+                                    for row in c['rows']:
+                                        row[i] = 'id'
+                    stats['file_route_ids_masked'] = 1
+                d = gen_schema.diff(da, db)
+                if d:
+                    fail('file-route-differs:build', 'load_metamodel of the accepted files builds another metamodel than input() + '
+                         'build_metamodel of the same texts, at %s: %r' % (d, [t[:200] for t in accepted]))
+    finally:
+        for f in os.listdir(work):
+            os.unlink(os.path.join(work, f))
+        os.rmdir(work)
 
 
 def _afterlife(x, loader, accepted, outcome, m, deep_before_build, fail, stats):
